@@ -35,6 +35,18 @@ def assign_configs(behaviours, prof, sd):
             b["block_size"] = 1
         b.update(extra)
         out.append(b)
+    # the same behaviour under several physical configurations; copies of different
+    # behaviours are adjacent so that --share-pairs couples trees with coinciding table ids
+    rep = prof.get("replicate", 1)
+    if rep > 1:
+        reps = []
+        for r in range(rep):
+            for i, b in enumerate(out):
+                c = dict(b)
+                c["phys"] = (i * rep + r + sd) % max(nphys, 1)
+                c["id"] = f"{b['id']}/{r}"
+                reps.append(c)
+        out = reps
     return out
 
 
@@ -89,7 +101,9 @@ def _run(prop, tier, prof, replay_path, t0, sd, work):
     vlib.build_harness()
     tp = prof[tier]
     nkeys = prof["nkeys"]
-    viol_kinds = set(prof["viol_kinds"])
+    # MALFORMED (the tree handed out keys / values that were never written, or an unreadable
+    # table) is held against every property checked through recorded states
+    viol_kinds = set(prof["viol_kinds"]) | {"MALFORMED"}
     known = vlib.load_known()
 
     if replay_path:
